@@ -69,6 +69,14 @@ def strategy(tier):
                                't': st.integers(0, 3),
                                'ns': st.integers(0, 3)}),
         st.fixed_dictionaries({'op': st.just('cdisc'), 'c': st.integers(0, 7)}),
+        # an event (text or binary) whose handler raises, then an ordinary
+        # event from the same client: the second one must be handled and
+        # acknowledged as usual
+        st.fixed_dictionaries({'op': st.just('fault'),
+                               'c': st.integers(0, 7),
+                               'binary': st.booleans(),
+                               'id': st.one_of(st.none(), st.integers(0, 5)),
+                               'id2': st.integers(0, 5)}),
         st.fixed_dictionaries({'op': st.just('window'),
                                'c': st.integers(0, 7),
                                'how': st.sampled_from(['cdisc', 'sdisc']),
@@ -117,6 +125,8 @@ def _run(case, w):
         # the tag is the first event argument
         for a in args:
             if isinstance(a, dict) and set(a) == {'__tag'}:
+                if rets[a['__tag']] == '__raise__':
+                    raise RuntimeError('application handler fault')
                 return rets[a['__tag']]
         return None
 
@@ -191,6 +201,46 @@ def _run(case, w):
                 w.mark_dead(ci)
             w.h.settle()
             w.recv_all()
+            continue
+        if k == 'fault':
+            lv = w.live()
+            if not lv:
+                continue
+            ci = lv[op['c'] % len(lv)]
+            c = w.clients[ci]
+            if responsible(c['ns'], 'a') is None:
+                continue
+            log.clear()
+            w.recv_all()
+            tag += 1
+            rets[tag] = '__raise__'
+            t1 = tag
+            w.send(c['t'], wire.EVENT, c['ns'], op['id'],
+                   ['a', {'__tag': tag}] + ([b'bin', {'k': b'x'}]
+                                            if op['binary'] else ['txt']))
+            w.h.settle()
+            tag += 1
+            rets[tag] = 'after-fault'
+            w.send(c['t'], wire.EVENT, c['ns'], op['id2'],
+                   ['a', {'__tag': tag}])
+            w.h.settle()
+            w.h.swallowed[:] = []
+            w.h.bg_errors[:] = [e for e in w.h.bg_errors if
+                                'application handler fault' not in str(e)]
+            tags = [a['__tag'] for kind, args in log for a in args
+                    if isinstance(a, dict) and set(a) == {'__tag'}]
+            if tags != [t1, tag]:
+                raise Violation('event-lost-after-handler-fault',
+                                'handled tags %r, expected %r (binary=%s)'
+                                % (tags, [t1, tag], op['binary']))
+            got = w.recv(c['t'])
+            acks = [(p['nsp'], p['id'], p['data']) for p in got]
+            if acks != [(c['ns'], op['id2'], ['after-fault'])]:
+                raise Violation('ack-after-handler-fault',
+                                'acks %r' % (acks,))
+            labels['handler_fault'] = True
+            labels['nontrivial'] = True
+            log.clear()
             continue
         if k == 'window':
             lv = w.live()
